@@ -49,7 +49,7 @@ fn bounded_remove_range_bounds() {
         if lo > hi + 1 || (matches!(s, Bound::Excluded(_)) && matches!(e, Bound::Excluded(_)) && sv == ev) || (sv > ev && !matches!(s, Bound::Unbounded) && !matches!(e, Bound::Unbounded)) { continue; }
         let dir = tempfile::tempdir().unwrap();
         let cas: crate::Cas<u8> = crate::Cas::open(dir.path(), cfg()).unwrap();
-        for k in &present { put(&cas, *k, &[*k; 3]); }
+        for k in &present { put(&cas, *k, &[*k % 2; 3]); } // two distinct contents shared by five keys: keys removed != blobs freed
         let model: BTreeSet<u8> = present.iter().copied().collect();
         let expect: Vec<u8> = model.range((s, e)).copied().collect();
         let n = cas.remove_range((s, e)).unwrap();
@@ -157,6 +157,8 @@ fn bounded_scan_orphans_exact_and_cleanup() {
     std::fs::remove_file(casdir.join(h_lost.relative_path())).unwrap();
     std::fs::write(casdir.join(h_bad.relative_path()), b"same length bytes!").unwrap();
     let leftover = dir.path().join("staging").join("leftover.tmp"); std::fs::write(&leftover, b"partial").unwrap();
+    // a leftover with the name shape the crate's own staging files have (tempfile's default prefix is `.tmp`)
+    let leftover2 = dir.path().join("staging").join(".tmpA1b2C3"); std::fs::write(&leftover2, b"partial too").unwrap();
     // a shard directory of a referenced blob that is a symlink to a directory elsewhere is still a directory
     let shard = casdir.join(h_single.relative_path()).parent().unwrap().to_path_buf();
     if !shard.starts_with(op.parent().unwrap()) && !op.parent().unwrap().starts_with(&shard) {
@@ -172,10 +174,11 @@ fn bounded_scan_orphans_exact_and_cleanup() {
     assert_eq!(inv, want, "invalid files = exactly the stray non-blob files");
     assert_eq!(stats.missing_blobs, vec![h_lost], "missing = exactly the referenced-but-absent blobs");
     assert_eq!(stats.corrupted_blobs, vec![h_bad], "corrupted = exactly the referenced blobs whose bytes do not match");
-    assert_eq!(stats.staging_files, vec![leftover.clone()], "leftover staging files");
+    let mut sf = stats.staging_files.clone(); sf.sort(); let mut wsf = vec![leftover.clone(), leftover2.clone()]; wsf.sort();
+    assert_eq!(sf, wsf, "leftover staging files = exactly the files under staging/");
     let res = stats.delete_orphans().unwrap();
     assert!(res.errors.is_empty(), "{:?}", res.errors);
-    assert!(!op.exists() && !invalid1.exists() && !invalid2.exists() && !leftover.exists(), "clean-up removes exactly the reported garbage");
+    assert!(!op.exists() && !invalid1.exists() && !invalid2.exists() && !leftover.exists() && !leftover2.exists(), "clean-up removes exactly the reported garbage");
     assert!(casdir.join(h_shared.relative_path()).exists() && casdir.join(h_single.relative_path()).exists(), "clean-up never removes a referenced blob");
     assert_eq!(cas.get(&"a".to_string()).unwrap().unwrap(), bytes::Bytes::from_static(b"shared content"));
 }
@@ -193,7 +196,7 @@ fn bounded_cas_path_under_non_utf8_root() {
     assert!(p.ends_with(hash.relative_path()), "blob path must end with the hash-derived relative path");
 }
 
-/// bound: 14 chunkings of contents up to ~10 MiB with chunk sizes {0,1,7,4095..8193,64Ki,1Mi,4Mi,5Mi} in mixed orders
+/// bound: 24 chunkings of contents up to 12 MiB with chunk sizes {0,1,7,4095..8193,64Ki,1Mi,4Mi,5Mi} in mixed orders
 #[test]
 fn bounded_chunked_write_matches_whole() {
     let dir = tempfile::tempdir().unwrap();
@@ -201,6 +204,8 @@ fn bounded_chunked_write_matches_whole() {
     let plans: Vec<Vec<usize>> = vec![
         vec![], vec![0], vec![1], vec![0, 1, 0], vec![7, 4095, 4096, 4097], vec![8191, 8192, 8193], vec![8192, 1], vec![1, 8192],
         vec![65_536, 3, 65_536], vec![1 << 20, 5, 1 << 20], vec![5, 4 << 20, 9], vec![4 << 20, 4 << 20], vec![100, 5 << 20, 100, 1 << 20, 1], vec![(4 << 20) - 1, 1, (4 << 20) + 1],
+        // whole blobs of round sizes in one call, and round totals reached in two calls
+        vec![4096], vec![8192], vec![65_536], vec![1 << 20], vec![2 << 20], vec![4 << 20], vec![8 << 20], vec![1, (4 << 20) - 1], vec![(1 << 20) - 1, 1], vec![4 << 20, 4 << 20, 4 << 20],
     ];
     for (i, plan) in plans.iter().enumerate() {
         let total: usize = plan.iter().sum();
@@ -239,4 +244,148 @@ fn bounded_blob_hash_eq_is_bytewise() {
         let hh = |v: &BlobHash| { let mut s = std::collections::hash_map::DefaultHasher::new(); v.hash(&mut s); s.finish() };
         assert_eq!(hh(&a), hh(&BlobHash(b)));
     }
+}
+
+/// bound: segment ids {0,1,2,9,10,11,99,100,101,1000, 18446744073709551615} in shuffled creation order + 6 non-segment names
+#[test]
+fn bounded_discover_segments_numeric_order() {
+    let dir = tempfile::tempdir().unwrap();
+    let paths = crate::paths::DbPaths::new(dir.path().to_path_buf());
+    let ids: Vec<u64> = vec![100, 9, 1000, 0, 11, 2, u64::MAX, 10, 99, 1, 101];
+    for id in &ids { std::fs::write(paths.wal_path_for_segment(*id), b"").unwrap(); }
+    for junk in ["index", "x_index.wal", "12_index.wal.bak", "-3_index.wal", "7_index", "LOCK"] { std::fs::write(dir.path().join(junk), b"").unwrap(); }
+    std::fs::create_dir(dir.path().join("cas")).unwrap();
+    let st = crate::wal::storage_for_verif(paths.clone());
+    let segs = st.discover_segments().unwrap();
+    let got: Vec<u64> = segs.iter().map(|s| s.id).collect();
+    let mut want = ids.clone(); want.sort();
+    assert_eq!(got, want, "discover_segments must return exactly the segment files, in ascending NUMERIC id order");
+    for s in &segs { assert_eq!(s.path, paths.wal_path_for_segment(s.id)); }
+}
+
+/// bound: batches of N distinct blobs for N in {1, 2, 3, 5, 255, 256, 257, 258, 259} deleted by one remove_range each
+#[test]
+fn bounded_bulk_delete_reclaims_every_blob() {
+    fn count_files(p: &std::path::Path) -> usize {
+        let mut n = 0;
+        if let Ok(rd) = std::fs::read_dir(p) { for e in rd.flatten() { let p = e.path(); if p.is_dir() { n += count_files(&p); } else { n += 1; } } }
+        n
+    }
+    let dir = tempfile::tempdir().unwrap();
+    let cas: crate::Cas<u32> = crate::Cas::open(dir.path(), cfg()).unwrap();
+    put(&cas, 1_000_000, b"keeper");
+    for n in [1u32, 2, 3, 5, 255, 256, 257, 258, 259] {
+        for k in 0..n { put(&cas, k, format!("blob {n} / {k}").as_bytes()); }
+        assert_eq!(count_files(&dir.path().join("cas")), n as usize + 1, "one file per distinct content");
+        let removed = cas.remove_range(0..n).unwrap();
+        assert_eq!(removed, n as usize);
+        assert_eq!(count_files(&dir.path().join("cas")), 1, "after removing a batch of {n} keys every blob of the batch must be gone");
+        assert_eq!(count_files(&dir.path().join("staging")), 0, "staging must be empty");
+    }
+}
+
+/// bound: one blob of 64 KiB + 123 bytes, two/three overlapping readers with interleaved partial reads and range reads
+#[test]
+fn bounded_overlapping_readers_stream_whole_blob() {
+    use std::io::Read;
+    let dir = tempfile::tempdir().unwrap();
+    let cas: crate::Cas<u8> = crate::Cas::open(dir.path(), cfg()).unwrap();
+    let content: Vec<u8> = (0..(65_536 + 123)).map(|i: usize| (i.wrapping_mul(31) >> 3) as u8).collect();
+    put(&cas, 1, &content);
+    put(&cas, 2, b"another blob");
+    let mut a = cas.get_reader(&1).unwrap().unwrap();
+    let mut got_a = vec![0u8; 10_000];
+    a.read_exact(&mut got_a).unwrap();
+    let mut b = cas.get_reader(&1).unwrap().unwrap();
+    let mut got_b = Vec::new(); b.read_to_end(&mut got_b).unwrap();
+    assert!(got_b == content, "reader B (opened while reader A was half way) must stream exactly the content: {} vs {}", got_b.len(), content.len());
+    assert_eq!(&cas.get_range(&1, 100, 20_100).unwrap().unwrap()[..], &content[100..20_100]);
+    let mut c = cas.get_reader(&1).unwrap().unwrap();
+    let mut first_c = vec![0u8; 5]; c.read_exact(&mut first_c).unwrap();
+    a.read_to_end(&mut got_a).unwrap();
+    assert!(got_a == content, "reader A must stream exactly L bytes of the content ({} vs {})", got_a.len(), content.len());
+    let mut rest_c = Vec::new(); c.read_to_end(&mut rest_c).unwrap(); first_c.extend(rest_c);
+    assert!(first_c == content, "reader C must stream exactly the content");
+    assert_eq!(cas.get_size(&1).unwrap(), Some(content.len() as u64));
+    assert_eq!(&cas.get(&2).unwrap().unwrap()[..], b"another blob");
+}
+
+/// bound: 3 scenarios - an abandoned transaction with written bytes before a put; two transactions written interleaved;
+/// a failed-then-retried put (same handle)
+#[test]
+fn bounded_transactions_are_independent() {
+    let dir = tempfile::tempdir().unwrap();
+    let cas: crate::Cas<u8> = crate::Cas::open(dir.path(), cfg()).unwrap();
+    let check = |k: u8, content: &[u8], what: &str| {
+        let st = cas.read_index_state(); let item = st.get_item(&k).unwrap(); drop(st);
+        assert_eq!(item.blob_hash, crate::calculate_blob_hash(content), "{what}: committed hash != BLAKE3(content)");
+        assert_eq!(item.blob_size, content.len() as u64, "{what}: size");
+        assert!(cas.get(&k).unwrap().unwrap()[..] == content[..], "{what}: content");
+    };
+    put(&cas, 1, b"first");
+    check(1, b"first", "before any abandoned transaction");
+    { let mut t = cas.put(9).unwrap(); t.write(b"abandoned bytes that must not leak anywhere").unwrap(); }
+    assert!(cas.get(&9).unwrap().is_none(), "abandoned transaction must not create the key");
+    put(&cas, 2, b"second");
+    check(2, b"second", "put after an abandoned transaction");
+    let mut t1 = cas.put(3).unwrap(); let mut t2 = cas.put(4).unwrap();
+    t1.write(b"aaa").unwrap(); t2.write(b"bbbb").unwrap(); t1.write(b"AAA").unwrap(); t2.write(b"BBBB").unwrap();
+    t2.finish().unwrap(); t1.finish().unwrap();
+    check(3, b"aaaAAA", "interleaved transaction 1"); check(4, b"bbbbBBBB", "interleaved transaction 2");
+    { let t = cas.put(5).unwrap(); drop(t); }
+    put(&cas, 5, b"");
+    check(5, b"", "empty blob after an empty abandoned transaction");
+    let staging: Vec<_> = std::fs::read_dir(dir.path().join("staging")).unwrap().collect();
+    assert!(staging.is_empty(), "staging must be empty when nothing is in flight");
+}
+
+/// bound: one snapshot written with a byte-string key that is not valid UTF-8, reopened with String keys
+#[test]
+fn bounded_reopen_with_undecodable_snapshot_key() {
+    let dir = tempfile::tempdir().unwrap();
+    {
+        let cas: crate::Cas<Vec<u8>> = crate::Cas::open(dir.path(), cfg()).unwrap();
+        put(&cas, b"good".to_vec(), b"content one");
+        put(&cas, vec![0xff, 0xfe, 0x00], b"content two");
+        cas.checkpoint().unwrap();
+    }
+    match crate::Cas::<String>::open(dir.path(), cfg()) {
+        Err(_) => {} // refusing to open is the behaviour of a total decoder that reports the bad key
+        Ok(cas) => {
+            let st = cas.read_index_state();
+            let keys: Vec<String> = st.iter().map(|(k, _)| k.clone()).collect();
+            let referenced: BTreeSet<BlobHash> = st.iter().map(|(_, it)| it.blob_hash).collect();
+            let known: BTreeSet<BlobHash> = st.known_blobs().map(|(h, _)| *h).collect();
+            assert_eq!(known, referenced, "after reopen the refcount table must account exactly for the keys exposed ({keys:?})");
+        }
+    }
+}
+
+/// bound: one store; a second open is attempted after each of 6 kinds of activity while the first handle is alive
+#[test]
+fn bounded_dirlock_held_through_operations() {
+    let dir = tempfile::tempdir().unwrap();
+    let c2 = Config { scan_orphans_on_startup: true, ..Config::default() };
+    { let cas: crate::Cas<u8> = crate::Cas::open(dir.path(), cfg()).unwrap(); put(&cas, 1, b"x"); }
+    std::fs::write(dir.path().join("staging").join("old.tmp"), b"leftover").unwrap();
+    let (cas, stats) = crate::Cas::<u8>::open_with_recover(dir.path(), c2).unwrap();
+    let second_open_refused = |when: &str| {
+        match crate::Cas::<u8>::open(dir.path(), cfg()) {
+            Err(_) => {}
+            Ok(_) => panic!("a second live handle could be opened on an owned directory ({when})"),
+        }
+    };
+    second_open_refused("right after open");
+    put(&cas, 2, b"y"); second_open_refused("after a put");
+    cas.checkpoint().unwrap(); second_open_refused("after a checkpoint");
+    let stats = stats.unwrap();
+    let res = stats.delete_orphans().unwrap(); assert!(res.errors.is_empty());
+    second_open_refused("after orphan clean-up");
+    cas.remove_range(0u8..=255).unwrap(); second_open_refused("after remove_range");
+    let clone = cas.clone(); drop(cas); second_open_refused("after dropping one of two handles");
+    drop(stats); second_open_refused("while a clone is still alive");
+    drop(clone);
+    let again = crate::Cas::<u8>::open(dir.path(), cfg());
+    assert!(again.is_ok(), "once every handle is gone the directory can be opened again");
+    assert_eq!(crate::paths::DbPaths::new(dir.path().to_path_buf()).lockfile_path(), dir.path().join("LOCK"), "documented layout: <db_root>/LOCK");
 }
